@@ -106,6 +106,17 @@ CLAIMS["C08"] = dict(
     note="The location state machine, corner insertion and TidyEdges (the behaviour for crossing paths) are NOT decided.",
     technique="static analysis: abstract interpretation over orderings + loop-carried-state dataflow",
     design="§3 E3/E2, §4 C08", engine="E3")
+CLAIMS["C09"] = dict(
+    category="other",
+    text="Static decision of necessary clauses only: GetLocation classifies a point correctly on all 25 orderings against the rectangle (what is "
+         "added as 'inside' is inside); the bounding-box predicates are exact and RectClipLines64::Execute uses them as 'empty rectangle -> nothing, "
+         "boxes disjoint -> skip', appending pieces path by path in the order found; the crossing dispatch of ExecuteInternal starts a new piece "
+         "exactly where the polyline enters the rectangle (all 24 location pairs; the pass-through case takes its first crossing from the far "
+         "end of the segment); nothing written while clipping one polyline is read while clipping the next.",
+    note="Partial: where the cuts are (GetIntersection, rounding), GetNextLocation's scan, the vertex order inside a piece and every tolerance of "
+         "the statement (1.5 / 1 / 2 units) are NOT decided - the numeric content of C09 is out of reach of static analysis here.",
+    technique="static analysis: abstract interpretation over orderings and the Location enum + loop-carried-state dataflow",
+    design="§3 E3/E2, §4 C09, §9.1", engine="E3")
 CLAIMS["C13"] = dict(
     category="other",
     text="Static decision of necessary clauses: the extracted closed contribution table is symmetric under path reversal (Positive<->Negative with "
@@ -190,7 +201,6 @@ CLAIMS["C19"] = dict(
 
 NOT_APPLICABLE = {
     "C02": "exactness on degenerate rectilinear input is a runtime interplay of horizontal joins; no structural clause is a necessary condition (DESIGN §4)",
-    "C09": "lengths and positions of cut pieces are numeric; the per-path scratch hygiene is decided under C12 (DESIGN §4)",
 }
 
 PENDING = {}
@@ -244,13 +254,15 @@ def main():
              "kind_free_text": "must-precede, option plumbing, pipeline identity, effect confinement"},
             {"name": "E11", "path": "/verif/vlib/engines/e11_paths.py", "serves_properties": ["C20"],
              "kind_free_text": "subsequence-by-construction and monotone flags for the path utilities"},
-            {"name": "E12", "path": "/verif/vlib/engines/e12_plumbing.py", "serves_properties": ["C06", "C19"],
+            {"name": "E13", "path": "/verif/vlib/engines/e13_links.py", "serves_properties": ["C10"],
+             "kind_free_text": "symbolic-heap execution of the ring-linking functions: link consistency at every throw point and exit"},
+            {"name": "E12", "path": "/verif/vlib/engines/e12_plumbing.py", "serves_properties": ["C06", "C07", "C19"],
              "kind_free_text": "orientation / shortcut plumbing of ClipperOffset; structural clauses of Minkowski"},
             {"name": "E6", "path": "/verif/vlib/engines/e6_siblings.py", "serves_properties": ["C15", "C16", "C05"],
              "kind_free_text": "sibling identity: USINGZ vs plain per function, 64 vs D builders"},
             {"name": "E7", "path": "/verif/vlib/engines/e7_zaccount.py", "serves_properties": ["C15"],
              "kind_free_text": "Z accounting must-follow analysis and SetZ table"},
-            {"name": "E3", "path": "/verif/vlib/engines/e3_tables.py", "serves_properties": ["C01", "C05", "C08", "C13", "C18"],
+            {"name": "E3", "path": "/verif/vlib/engines/e3_tables.py", "serves_properties": ["C01", "C05", "C08", "C09", "C13", "C18"],
              "kind_free_text": "finite decision tables by abstract interpretation of the AST (vlib/evalx.py) against definitional oracles"},
             {"name": "E4", "path": "/verif/vlib/engines/e4_layout.py", "serves_properties": ["C17"],
              "kind_free_text": "flat-array layout shapes and exported-parameter forwarding"},
